@@ -73,4 +73,5 @@ def handler(job):
     return {"events": evs}
 
 
-serve(handler)
+if __name__ == "__main__":
+    serve(handler)
